@@ -43,6 +43,9 @@ fn sw_rels<P: SWCurveConfig>(out: &mut Vec<Rel>, name: &str, tier: Tier, weight:
     let q = |n: u32, heavy: u32| if weight == 0 { tier.pick(heavy, heavy * 10) } else { tier.pick(n, n * 20) * weight / 4 };
     let cc = ctx.clone();
     out.push(Rel::new(format!("member/{}", name), q(150, 6), 40, move |t, o| sw::member::<P>(&cc, t, o)).shrink_iters(200));
+    // membership on points whose cofactor component sweeps the whole l-torsion for small primes l | h
+    let tctx = Arc::new(sw::SwCtx::<P> { name: name.to_string(), r: ctx.r.clone(), h: ctx.h.clone(), c: ctx.c.clone(), c_doc: ctx.c_doc, src: sw::torsion_src::<P>(), do_rand: false });
+    out.push(Rel::new(format!("member-torsion/{}", name), q(300, 4), 40, move |t, o| sw::member::<P>(&tctx, t, o)).shrink_iters(200));
     let cc = ctx.clone();
     out.push(Rel::new(format!("clear/{}", name), q(60, 2), 64, move |t, o| sw::clear::<P>(&cc, t, o)).shrink_iters(100));
     let cc = ctx.clone();
